@@ -48,7 +48,7 @@ Proof. exact released_in_enqueue_order. Qed.
 Print Assumptions C05_release_order_without_slot_limit.
 
 (* non-vacuity: the README's mixed example — two watchers, batchable and not *)
-Definition ex_cfg : cfg := mkCfg V1 10 false false 0 0 0 0 0 0 [mkW 2 0 0; mkW 0 0 0] 0 0 0.
+Definition ex_cfg : cfg := mkCfg V1 10 false false 0 0 0 0 0 0 [mkW 2 0 0; mkW 0 0 0] 0 0 0 0.
 Definition ex_enq (w obj : nat) (b : bool) : label := AEnqueue (mkE false (Some w) obj 1 1 b 0 false).
 Example C05_nonvacuous :
   exists s os, run ex_cfg (init ex_cfg)
